@@ -271,6 +271,9 @@ def simplify(t):
             return ('un', 'Not', args[0])
         if ls in CMP_CALLS and len(args) == 2 and ('PartialEq' in name or 'PartialOrd' in name or 'cmp::' in name or 'partial_eq' in name):
             return ('bin', CMP_CALLS[ls], args[0], args[1])
+        if name in ('std::cmp::max', 'core::cmp::max', 'std::cmp::min', 'core::cmp::min'):
+            # the free functions are the Ord methods
+            name = 'std::cmp::Ord::' + ls
         return ('call', name, args) + t[3:]
     if k == 'index':
         return ('index', simplify(t[1]), simplify(t[2]))
